@@ -680,7 +680,7 @@ pub fn xbuild_consume(dir: &Path) -> Result<XResult, String> {
 pub fn run(opts: &Opts) -> Report {
     let mut rep = Report::new("C07", "exploration");
     rep.assumptions = vec![
-        "a feature literally named '*' never appears as a name in bigram.cost (a dropped feature and a real '*' feature would be indistinguishable)".into(),
+        "cost lines may name '*': a '*' cell counts as 0 whatever bigram.cost lists (the property text)".into(),
         "duplicate (right, left) lines in bigram.cost are not generated (which one counts is unspecified)".into(),
         "dual == defining sum is asserted only where the negative contributions sum to ≥ −32768 and the positive ones to ≤ 32767 (whatever subset is pre-summed, it fits 16 bits and cannot have been clamped)".into(),
     ];
